@@ -189,6 +189,12 @@ func genLogDag(tp *simrt.Tape, thorough bool) *DagSpec {
 			s.Chunk *= 8
 		}
 		s.Direct = chance(tp, 1, 3)
+		if s.RetryLimit < 0 && s.Stderr == "" && !s.Direct && chance(tp, 1, 8) {
+			// the command exits at once and leaves a background child that holds the step's output open for
+			// several seconds and prints a last line before it ends: that line is output of the step too
+			s.BgMs, s.BgLate = pick(tp, 2500, 6000, 9000), true
+			s.FailFirst = 0
+		}
 		d.Steps = append(d.Steps, s)
 	}
 	return d
@@ -271,6 +277,17 @@ func (c *stepCheck) checkLogs(hung bool) {
 		if s.Stderr != "" {
 			wantLog = wantOut
 			wantOutFile = wantOut
+		}
+		if s.BgLate {
+			for _, b := range c.truth.Bg {
+				if b.Name == s.Name && b.OutWrote > 0 {
+					late := []byte(BgLateText(s.Name))
+					wantOut = append(append([]byte{}, wantOut...), late...)
+					wantLog = append(append([]byte{}, wantLog...), late...)
+					wantOutFile = append(append([]byte{}, wantOutFile...), late...)
+					bump(c.out, "late_output_of_background_child")
+				}
+			}
 		}
 		if len(wantLog)+len(wantErr) > 0 {
 			c.out.NonTrivial = true
